@@ -16,7 +16,8 @@ RULE = ("continuous and grid worlds, wrapping and not; 0-8 agents on a coarse la
         "removals, queries with a point inside or outside the world and (general, x, y, z) leeways from {negative, 0, "
         "equal, one larger than the other}; non-trivial = >=3 agents, >=1 agent exactly on a face of the box and >=1 "
         "agent moved since placement; distinct = (kind, wrap, per query: population, answer size, on-face count, "
-        "seam-crossing flag, leeway relation)")
+        "seam-crossing flag, leeway relation)"
+        "; also: continuous extents in (0,1), rejected duplicate placements between queries, wrap_env reassigned, worlds that are not model.environment, model lifecycle ops")
 COMPONENTS = {"real": ["ECAgent.Environments.SpaceWorld.get_agents_at", "add_agent / move / move_to / remove_agent"],
               "stub": ["agents are plain ECAgent agents created by the harness"]}
 PROBES = ["axis_leeway_larger", "general_leeway_larger", "negative_leeway", "empty_answer", "coincident_agents",
